@@ -312,7 +312,9 @@ pub fn suite_faults(ctx: &Ctx, thorough: bool) {
             if !t.quals.iter().any(|(k, _)| k.eq_ignore_ascii_case("checksum")) {
                 for c in ["checksum=sha1", "checksum=sha1:abc", "checksum=sha1:zz", "checksum=a:00,A:11", "CHECKSUM=a:00,,b:11", "checksum=%C7%85:00,%C7%86:11",
                           "checksum=%C3%86A:00,%C3%A6a:11", "checksum=A%C3%86:00,a%C3%A6:11", "checksum=x%C3%86Y:00,X%C3%A6y:11", "checksum=a:00,b:11,a:22", "checksum=a:0",
-                          "checksum=md5:%2Ba%2BB", "checksum=md5:-1", "checksum=md5:0x", "checksum=md5:%2B1"] {
+                          "checksum=md5:%2Ba%2BB", "checksum=md5:-1", "checksum=md5:0x", "checksum=md5:%2B1",
+                          // fifteenth round: two odd-length digests (an even total), an odd one after / before an even one
+                          "checksum=md5:abc,sha1:def", "checksum=a:0,b:1", "checksum=a:000,b:0", "checksum=a:00,b:1", "checksum=a:1,b:00", "checksum=a:0,b:1,c:22"] {
                     cases.push((add_q(c), ErrKind::InvalidQualifier, "malformed checksum"));
                 }
             }
